@@ -32,6 +32,8 @@ class Index:
         self.consts = {}       # (module, name) -> python value ; class consts as (module, "Cls.name")
         self.const_by_name = {}
         self.classes = {}      # cls -> module
+        self.bases = {}        # cls -> first base class name (single inheritance is all the verified code uses)
+        self.singletons = {}   # (owner class, NAME) -> class of which `NAME = Cls()` makes the one instance
         self.file_sha = {}
         root = os.path.join(repo, "tracklib")
         for dp, dn, fn in sorted(os.walk(root)):
@@ -61,6 +63,15 @@ class Index:
                 self._const(module, None, node)
             elif isinstance(node, ast.ClassDef):
                 self.classes.setdefault(node.name, module)
+                for b in node.bases:
+                    if isinstance(b, ast.Name):
+                        self.bases.setdefault(node.name, b.id)
+                        break
+                for sub in node.body:
+                    if isinstance(sub, ast.Assign) and len(sub.targets) == 1 and isinstance(sub.targets[0], ast.Name) \
+                            and isinstance(sub.value, ast.Call) and isinstance(sub.value.func, ast.Name) \
+                            and not sub.value.args and not sub.value.keywords:
+                        self.singletons[(node.name, sub.targets[0].id)] = sub.value.func.id
                 for sub in node.body:
                     if isinstance(sub, ast.FunctionDef):
                         self._add(FuncInfo(module, node.name, mangle(sub.name, node.name), sub, rel))
